@@ -192,7 +192,18 @@ class CallMixin:
             return vals[0]
         return TupleV(vals)
 
+    def pure_uf(self, name, args):
+        f = T.UF('pure_' + re.sub(r'[^A-Za-z0-9_.]', '_', name), [T.INT] * len(args), T.INT)
+        return f(*args)
+
     def pure_result(self, name, args, res_types, st):
+        if len(res_types) == 1 and all(is_term(a) and T.sort_of(a) == T.INT for a in args) and args and \
+                self.ty.leaves(res_types[0])[0][1] == T.INT and len(self.ty.leaves(res_types[0])) == 1 and \
+                name.rsplit('/', 1)[-1].split('.')[0] in ('filepath', 'path', 'strings', 'strconv'):
+            # a pure function of scalar arguments is a FUNCTION: same arguments, same result
+            r = self.pure_uf(name, args)
+            self.assume_facts(r, res_types[0])
+            return r
         r = self.fresh_results(res_types, name.rsplit('.', 1)[-1])
         # a few library facts that are needed everywhere (each is an assumption on the dependency)
         base = name.rsplit('/', 1)[-1]
@@ -540,6 +551,26 @@ class CallMixin:
                 return full
         raise Unsupported('unknown map type %s' % text)
 
+    def chanspec(self, table, ctx, st, ch):
+        """contract of a channel operation: by the channel value, or by the (local) variable currently holding it"""
+        if not is_term(ch):
+            return None
+        ps = table.get(ch)
+        if ps is not None or not self.chan_pending:
+            return ps
+        names = dict(self.base_names)
+        env = Env(names, st, self.entry_state, self.cellnames_for(ctx, ctx.get('block')), self.pkg, prefer_cells=True)
+        for path, spec_, tbl in self.chan_pending:
+            if tbl is not table:
+                continue
+            try:
+                v, tn = self.eval(parse_expr(path), env)
+            except Unsupported:
+                continue
+            if is_term(v) and v == ch:
+                return spec_
+        return None
+
     def specs_ghostfields(self):
         return getattr(self.specs, 'ghostfields', {})
 
@@ -633,7 +664,7 @@ class CallMixin:
             self.record_write(('heap', md))
             st.heap[md] = T.store(arr, m, T.store(T.select(arr, m), k, T.FALSE))
         elif name == 'close':
-            ps = self.closespecs.get(args[0]) if is_term(args[0]) else None
+            ps = self.chanspec(self.closespecs, ctx, st, args[0])
             if ps is not None:
                 fake = dict(ins)
                 fake['call'] = {'sig': 'func()', 'args': []}
@@ -704,6 +735,7 @@ class CallMixin:
         self.chanspecs = {}
         self.closespecs = {}
         self.recvspecs = {}
+        self.chan_pending = []
         self.lemmas_used = set()
         self.go_sites = []
         self.spawned = False
@@ -757,7 +789,7 @@ class CallMixin:
                 try:
                     self.hyps.append(self.eval_bool(c.parse(), env))
                     self.clause_hits[id(c)] = 1
-                except Unsupported as e:
+                except (Unsupported, ParseError) as e:
                     self.elab_fail('requires %r: %s' % (c.text, e), c)
             for path, ps in spec.params.items():
                 try:
@@ -818,7 +850,8 @@ class CallMixin:
                         else:
                             self.elab_fail('send/closes %s: not a channel value' % path)
                     except Unsupported as e:
-                        self.elab_fail('send/closes %s: %s' % (path, e))
+                        # a channel held in a local variable: resolved when it is used
+                        self.chan_pending.append((path, ps, store_))
         self.cover('pre', st)
         try:
             ex, results = self.run_function(fn, frame, st, args, bindings, spec)
